@@ -14,6 +14,13 @@ def chk(pid, text, note, design, technique='deductive verification: ast->VC gene
     }
 
 CHECKS = [
+    chk("C14", "The real lookup functions of gitypelib.c (by name incl. the hashed path, by GType name, by error domain) are proved: "
+        "a returned entry always carries exactly the probed string (the mandatory final comparison), lies among the local entries, "
+        "the linear searches find the first matching entry and return NULL only when no entry matches.",
+        "Trusted: givc C front end, stub headers, strcmp / g_typelib_get_dir_entry / get_section_by_id by assumed contract, byte layout "
+        "of the mapped file abstracted as locations, CMPH (hash returns some index below n_entries). Index construction (gthash.c), "
+        "prefix matching and repository-level find_* are not yet under contract.", "DESIGN.md section 4 C14",
+        technique="deductive verification: clang-AST -> VC generator (givc C front end) on the real C functions + z3"),
     chk("C08", "The real C functions of giroffsets.c (clang JSON AST, translated mechanically) are proved against the System V ABI "
         "layout rule written as folds over the member list: struct offsets/size/alignment, union size/alignment, unknown member "
         "=> unknown layout (-1), GI_ALIGN on powers of two, enum storage type against the GCC rule, one-member size/alignment.",
